@@ -231,6 +231,10 @@ class Call(Node):
             str
         """
         n, u = utility.analyze_number(value)
-        n = int(n * 100.0)
+        # n * 100.0 may land a few ulps beside the exact value (0.29 * 100.0 ==
+        # 28.999999999999996): round the float noise away, keep the fraction.
+        n = round(n * 100.0, 10)
+        if int(n) == n:
+            n = int(n)
         u = '%'
         return utility.with_unit(n, u)
